@@ -14,10 +14,11 @@ CHECK = {
     "harness": ["actor/zz_verif_c07.go", "supervisor/zz_verif_c07.go"],
     "entries": [
         dict(MO, fn=P + "vC07_lookup"),
-        dict(MO, fn=P + "vC07_failure", cases={"siblings": [0, 1, 2]}),
+        dict(MO, fn=P + "vC07_failure", cases={"siblings": [0, 1, 2], "strategy": [0, 1], "errType": [0, 1, 2, 3, 4]}),
     ],
     "opts": {"unwind": 10, "birth_guard_stores": True, "equalfold_ascii": True, "feas_from_iter": 1000, "substitute": SUB, "go_inline": True, "select_precise": True},
     "stop": list(SUB.keys()),
+    "timeout_ms": {"quick": 1500000, "thorough": 3000000},
     "descend_extra": ["golang.org/x/sync/errgroup"],
     "explanation": "TODO",
     "bounds": {},
